@@ -76,7 +76,7 @@ def run(ck):
             _validate(ck, sw, "cover_b", beh, "transition cover, byte-wise reads, other frame variants", "split=byte,variant=3", ck.seed)
 
     def count():
-        consts = {"MaxPeer": 4 if quick else 5, "MaxCalls": 3 if quick else 4, "BUG_SecondClose": "FALSE"}
+        consts = {"MaxPeer": 5, "MaxCalls": 4, "BUG_SecondClose": "FALSE"}
         cfg = vlib.cfg_with(sw, "WsSessionImpl_count.cfg", consts)
         r = vlib.tlc(sw, "WsSessionImpl", cfg, workers=3 if quick else max(4, vlib.NCPU - 6), timeout=1500)
         if not r.ok:
@@ -95,7 +95,7 @@ def run(ck):
     def sim(k):
         consts = {"MaxPeer": 5, "MaxCalls": 4, "BUG_SecondClose": "FALSE"}
         cfg = vlib.cfg_with(sw, "WsSessionImpl_sim.cfg", consts)
-        n = 3000 if quick else 60000
+        n = 1500 if quick else 60000
         r = vlib.tlc(sw, "WsSessionImpl", cfg, workers=1, simulate=n, depth=12, seed=ck.seed * 1000 + k, timeout=1500)
         if r.violated or (r.error and "timeout" in r.error):
             raise vlib.Inconclusive("WsSessionImpl simulation: %s\n%s" % (r.violated or r.error, r.tail()))
@@ -108,7 +108,9 @@ def run(ck):
         _validate(ck, sw, "sim_%d" % k, beh, "random behaviours 5x4, %s" % mode, mode, ck.seed + k)
 
     with ThreadPoolExecutor(max_workers=6) as ex:
-        futs = [ex.submit(cover), ex.submit(count), ex.submit(bugdemo)] + [ex.submit(sim, k) for k in range(2 if quick else 3)]
+        # quick: the cover run is the exhaustive run (3x3); thorough adds the exhaustive 5x4 run
+        futs = [ex.submit(cover), ex.submit(bugdemo)] + ([] if quick else [ex.submit(count)]) + \
+               [ex.submit(sim, k) for k in range(2 if quick else 3)]
         for f in futs:
             f.result()
     ck.cov["tlc_runs"].sort(key=lambda r: r["name"])
